@@ -254,6 +254,10 @@ func (p *Proxy) handleLoop(conn net.Conn) {
 	}
 
 	for {
+		// After a MITM upgrade the session runs on the TLS connection; every further request
+		// of the tunnel must be handled on it so that it is treated as secure.
+		conn := s.connection()
+
 		deadline := time.Now().Add(p.timeout)
 		conn.SetDeadline(deadline)
 
@@ -368,6 +372,9 @@ func (p *Proxy) handleConnectRequest(ctx *Context, req *http.Request, session *S
 			}
 			brw.Writer.Reset(nconn)
 			brw.Reader.Reset(nconn)
+			// The session continues on the decrypted connection: this is what later requests
+			// of the tunnel are read from and what a hijacker must be handed.
+			session.setConn(nconn, brw)
 			return p.handle(ctx, nconn, brw)
 		}
 
